@@ -35,6 +35,7 @@ def run(ctx):
     flow_decision(ctx, f, cfg)
     hotspot_decision(ctx, f, cfg)
     schedule_store(ctx, f, cfg)
+    pacing_arithmetic(ctx, f, cfg)
     g = LockGraph(f)
     g.build()
     bad = [(s, sorted({h["cls"] for h in s["held"]} - {"inst:EntryContext"})) for s in g.sleep_sites]
@@ -330,6 +331,45 @@ def hotspot_decision(ctx, f, cfg):
     ctx.instance("C07.decision/per-value", b.path, "schedule cell keyed by the checked argument: %s" % keyed, "true", keyed, cfg)
     if not keyed:
         ctx.violation("C07.decision", "C07.decision|hotspot|key", "the throttling schedule is not kept per parameter value", b.loc(), config=cfg)
+
+
+WIDE = ("u64", "i64", "u128", "i128", "f64", "usize", "isize")
+
+
+def pacing_arithmetic(ctx, f, cfg, R="C07.pacing-arithmetic"):
+    """The spacing batch * interval / rate and the unit conversions keep their precision and range: (a) no integer division whose
+    truncated result is multiplied (or converted to a real number) afterwards in the throttling checkers - `batch * (interval / rate)`
+    under-paces whenever rate does not divide the interval; (b) the ms <-> ns factor is applied in a 64-bit (or wider) type - a queueing
+    time of a few seconds times 10^6 does not fit 32 bits."""
+    from .lossy import int_div_sites
+    bodies = [b for p, b in f.bodies.items() if "traffic_shaping::throttling" in p and "::test" not in p]
+    lossy = []
+    for b in bodies:
+        for kind, bi, what in int_div_sites(f, b):
+            lossy.append((b, bi, what))
+    narrow = []
+    for p, b in f.bodies.items():
+        if "::test" in p or not ("traffic_shaping" in p or "::utils::time" in p or "::flow::slot" in p or "::hotspot::slot" in p):
+            continue
+        sl = None
+        for bi, blk in enumerate(b.blocks):
+            if blk["cleanup"]:
+                continue
+            for st in blk["stmts"]:
+                if st["k"] == "assign" and st["rv"]["k"] == "bin" and st["rv"]["op"] in ("Mul", "MulWithOverflow", "Div") and not st.get("exp"):
+                    sl = sl or Slicer(f, b)
+                    ops = (st["rv"]["a"], st["rv"]["b"])
+                    if any(any(x.endswith(("unix_time_unit_offset", "UNIX_TIME_UNIT_OFFSET")) for x in sl.of_operand(o)) for o in ops):
+                        tys = [b.local_ty(op_place(o)["l"]) if op_place(o) else None for o in ops]
+                        if any(t is not None and t not in WIDE for t in tys):
+                            narrow.append((b, bi, tys))
+    ok = not lossy and not narrow and len(bodies) >= 3
+    ctx.instance(R, "throttling checkers + time conversions", {"bodies": len(bodies), "truncating_divisions": [x[0].path for x in lossy], "narrow_unit_conversions": [(x[0].path, x[2]) for x in narrow]},
+                 "no divide-then-multiply; ms<->ns factor applied in 64 bits", ok, cfg)
+    for b, bi, what in lossy:
+        ctx.violation(R, "%s|lossy|%s" % (R, b.path.replace("core::", "", 1)), "%s: %s - the spacing is under-estimated whenever the divisor does not divide the interval" % (b.path, what), b.loc(bi), config=cfg)
+    for b, bi, tys in narrow:
+        ctx.violation(R, "%s|narrow|%s" % (R, b.path.replace("core::", "", 1)), "%s applies the ms<->ns factor in %s arithmetic: times above ~4.29 s overflow (panic with overflow checks, wrong wait otherwise)" % (b.path, [t for t in tys if t]), b.loc(bi), config=cfg)
 
 
 def _user_local(b, op, depth=0):
